@@ -397,11 +397,21 @@ def literal_cases():
     return out
 
 
+LONG_LITERAL_MODULUS = (1 << 255) - 19
+
+
 def fam_literals(tier):
     for text, val in literal_cases():
         # the literal alone, and inside an expression (+ 0) on each side
         yield Case(('raw', text), tag='literal'), val
         yield Case(('+', ('raw', text), 0), tag='literal+0'), val
+    # long literals (more digits than a chunked / limited conversion takes in one piece), in each base: observed modulo a 255-bit prime
+    # and through their top 200 bits (the whole value does not fit the observation window)
+    for nd in (100, 511, 512, 513, 700, 1024, 1500, 4000):
+        v = int('7' + '1234567890' * (nd // 10) + '3' * (nd % 10))
+        for text in (str(v), hex(v)) + ((bin(v),) if nd == 700 else ()):
+            yield Case(('%', ('raw', text), LONG_LITERAL_MODULUS), tag=f'long-literal-{nd}-digits mod p'), v % LONG_LITERAL_MODULUS
+            yield Case(('>>', ('raw', text), v.bit_length() - 200), tag=f'long-literal-{nd}-digits top bits'), v >> (v.bit_length() - 200)
 
 
 def chain_texts():
